@@ -562,6 +562,7 @@ class Evaluator:
         self.F = ctx.facts
         self.S = ctx.facts.S
         self.trace_calls = []  # (caller path, callee path) inlined
+        self.let_hook = None  # optional: value -> value, applied to every simple `let`
         self.uninterp = {}  # name -> count
 
     # ---- entry -------------------------------------------------------------
@@ -712,6 +713,8 @@ class Evaluator:
                     self.bind_uninit(s["pat"], fr.env)
                     continue
                 v = self.ev(s["init"], fr)
+                if self.let_hook is not None and s["pat"]["k"] == "bind":
+                    v = self.let_hook(v)
                 self.bind(s["pat"], v, fr.env)
             else:
                 self.ev(s["e"], fr)
@@ -1411,24 +1414,45 @@ class Evaluator:
         return self.F.impl_method(ims[0], c["n"])
 
     def unique_impl_method(self, c, fr):
-        key = (c["tr"], c["a"][0], c["n"])
+        key = (c["tr"], tuple(self.subst_ty(self.S[a], fr) for a in c["a"]), c["n"])
         cache = self.ctx.const_cache
         if ("uim", key) in cache:
             return cache[("uim", key)]
         res = None
         self_ty = self.subst_ty(self.S[c["a"][0]], fr)
         adt = _adt_of_type(self_ty)
+        tr = self.S[c["tr"]]
+        name = c["n"]
+        targs = [self.subst_ty(self.S[a], fr) for a in c["a"][1:]]
+        # blanket `impl IntoColorUnclamped<U> for T where U: FromColorUnclamped<T>` (checked as CONV-BLANKET by C01)
+        if tr.endswith("IntoColorUnclamped") and name == "into_color_unclamped" and targs:
+            tr, name = tr.replace("IntoColorUnclamped", "FromColorUnclamped"), "from_color_unclamped"
+            self_ty, targs = targs[0], [self_ty]
+            adt = _adt_of_type(self_ty)
         if adt in self.F.adt_by_path:
-            ims = [im for im in self.F.impls if im.get("trait") == self.S[c["tr"]] and im.get("self_adt") == adt]
+            ims = [im for im in self.F.impls if im.get("trait") == tr and im.get("self_adt") == adt and not im.get("derived")]
+            if targs and any(im["trait_args_s"] for im in ims):
+                # the trait's own type arguments must name the same ADT as the impl's (never guess)
+                want = _adt_of_type(targs[0])
+                if want in self.F.adt_by_path:
+                    ims = [im for im in ims if im["trait_args_s"] and _adt_of_type(im["trait_args_s"][0]) == want]
+                else:
+                    ims = []
             if len(ims) == 1:
-                res = self.F.impl_method(ims[0], c["n"])
+                res = self.F.impl_method(ims[0], name)
         cache[("uim", key)] = res
         return res
 
     def _trait_default(self, c, b):
-        # a trait method with a default body, unresolved: inlining it would be unsound if
-        # an impl overrides it; only allowed for explicit whitelists
-        return False
+        # a trait method with a default body, left unresolved by rustc: it is the body that runs
+        # unless an impl overrides the method; inline only when no impl in the crate does
+        key = ("trait_default", c["tr"], c["n"])
+        cache = self.ctx.const_cache
+        if key not in cache:
+            tr = self.S[c["tr"]]
+            over = any(im.get("trait") == tr and any(it["n"] == c["n"] and it["kind"] == "Fn" for it in im["items"]) for im in self.F.impls)
+            cache[key] = not over
+        return cache[key]
 
     def app_name(self, path, c, fr):
         targs = [self.subst_ty(self.S[a], fr) for a in c.get("ra", c["a"])]
@@ -1483,7 +1507,9 @@ class Evaluator:
             if im is not None:
                 from .alg import split_type
                 _, pat = split_type(im["self_s"])
-                _, act = split_type(self.subst_ty(self.S[c["a"][0]], fr))
+                cand = [self.subst_ty(self.S[a], fr) for a in c["a"]]
+                act_ty = next((t for t in cand if _adt_of_type(t) == im.get("self_adt")), cand[0])
+                _, act = split_type(act_ty)
                 if len(pat) == len(act):
                     for g, a in zip(pat, act):
                         if re.match(r"^[A-Za-z_][A-Za-z0-9_]*$", g):
